@@ -37,13 +37,13 @@ theorem C05_refute_fixed_rows : ¬ (∀ (W : Nat), 1 < W → ∀ (t : View) (rhs
     ∀ q ∈ rhs.fixedLeaves, ∀ (idx : List Nat) (j : Nat),
       ((q.1 : Int) + rowStart (fixedOuter q.2) idx + (assignPlan Cfg.pinned W t rhs).istart + j * W) % (W : Int) = 0) := by
   intro h
-  have := h 2 (by decide) { a := 0, outerDims := [3], outer := [6], n := 5 } (.un (.fixed 0 [3, 5])) (by decide)
+  have := h 2 (by decide) { a := 0, outerDims := [3], outer := [6], n := 5 } (.un true (.fixed 0 [3, 5])) (by decide)
     (0, [3, 5]) (by simp [Expr.fixedLeaves]) [1] 0
   revert this; decide
 
-example : assignPlan Cfg.pinned 2 { a := 0, outerDims := [3], outer := [6], n := 5 } (.un (.fixed 0 [3, 5]))
+example : assignPlan Cfg.pinned 2 { a := 0, outerDims := [3], outer := [6], n := 5 } (.un true (.fixed 0 [3, 5]))
     = ⟨true, 0, 4, 6⟩ := by decide
-example : assignPlan Cfg.repaired 2 { a := 0, outerDims := [3], outer := [6], n := 5 } (.un (.fixed 0 [3, 5]))
+example : assignPlan Cfg.repaired 2 { a := 0, outerDims := [3], outer := [6], n := 5 } (.un true (.fixed 0 [3, 5]))
     = Plan.scalar := by decide
 
 /-- F-53: `D = C + 1` with `C = B.permute(1,0,2)`, `B.resize_contiguous(3,2,5)` (extents 2×3×5, offsets 5,10,1) and
@@ -55,13 +55,13 @@ theorem C05_refute_outer_offsets : ¬ (∀ (W : Nat), 1 < W → ∀ (t : View) (
       ((v.a : Int) + rowStart v.outer idx + (assignPlan Cfg.pinned W t rhs).istart + j * W) % (W : Int) = 0) := by
   intro h
   have := h 2 (by decide) { a := 0, outerDims := [2, 3], outer := [18, 6], n := 5 }
-    (.un (.arr { a := 0, outerDims := [2, 3], outer := [5, 10], n := 5 })) (by decide)
+    (.un true (.arr { a := 0, outerDims := [2, 3], outer := [5, 10], n := 5 })) (by decide)
     { a := 0, outerDims := [2, 3], outer := [5, 10], n := 5 } (by simp [Expr.arrLeaves]) [1, 0] 0
   revert this; decide
 
 example : assignPlan Cfg.pinned 2 { a := 0, outerDims := [2, 3], outer := [18, 6], n := 5 }
-    (.un (.arr { a := 0, outerDims := [2, 3], outer := [5, 10], n := 5 })) = ⟨true, 0, 4, 12⟩ := by decide
+    (.un true (.arr { a := 0, outerDims := [2, 3], outer := [5, 10], n := 5 })) = ⟨true, 0, 4, 12⟩ := by decide
 example : assignPlan Cfg.repaired 2 { a := 0, outerDims := [2, 3], outer := [18, 6], n := 5 }
-    (.un (.arr { a := 0, outerDims := [2, 3], outer := [5, 10], n := 5 })) = Plan.scalar := by decide
+    (.un true (.arr { a := 0, outerDims := [2, 3], outer := [5, 10], n := 5 })) = Plan.scalar := by decide
 
 end Adept.Simd
